@@ -138,6 +138,34 @@ __field_ty!(F1);
 __field_ty!(F2);
 __field_ty!(F3);
 
+/// a generic operand type: `W<T>` has every operator `T` has (the type parameter sits *inside* the field type)
+#[derive(Clone, Debug, PartialEq, Eq)]
+pub struct W<T>(pub T);
+macro_rules! __wbin {
+    ($Tr:ident $m:ident $TrA:ident $ma:ident) => {
+        impl<T: std::ops::$Tr<Output = T>> std::ops::$Tr for W<T> { type Output = W<T>; fn $m(self, r: W<T>) -> W<T> { W(std::ops::$Tr::$m(self.0, r.0)) } }
+        impl<T: std::ops::$Tr<K, Output = T>> std::ops::$Tr<K> for W<T> { type Output = W<T>; fn $m(self, r: K) -> W<T> { W(std::ops::$Tr::$m(self.0, r)) } }
+        impl<T: std::ops::$Tr<NK, Output = T>> std::ops::$Tr<NK> for W<T> { type Output = W<T>; fn $m(self, r: NK) -> W<T> { W(std::ops::$Tr::$m(self.0, r)) } }
+        impl<T: std::ops::$TrA> std::ops::$TrA for W<T> { fn $ma(&mut self, r: W<T>) { std::ops::$TrA::$ma(&mut self.0, r.0) } }
+        impl<T: std::ops::$TrA<K>> std::ops::$TrA<K> for W<T> { fn $ma(&mut self, r: K) { std::ops::$TrA::$ma(&mut self.0, r) } }
+        impl<T: std::ops::$TrA<NK>> std::ops::$TrA<NK> for W<T> { fn $ma(&mut self, r: NK) { std::ops::$TrA::$ma(&mut self.0, r) } }
+    };
+}
+__wbin!(Add add AddAssign add_assign);
+__wbin!(Sub sub SubAssign sub_assign);
+__wbin!(BitAnd bitand BitAndAssign bitand_assign);
+__wbin!(BitOr bitor BitOrAssign bitor_assign);
+__wbin!(BitXor bitxor BitXorAssign bitxor_assign);
+__wbin!(Mul mul MulAssign mul_assign);
+__wbin!(Div div DivAssign div_assign);
+__wbin!(Rem rem RemAssign rem_assign);
+__wbin!(Shr shr ShrAssign shr_assign);
+__wbin!(Shl shl ShlAssign shl_assign);
+impl<T: std::ops::Not<Output = T>> std::ops::Not for W<T> { type Output = W<T>; fn not(self) -> W<T> { W(!self.0) } }
+impl<T: std::ops::Neg<Output = T>> std::ops::Neg for W<T> { type Output = W<T>; fn neg(self) -> W<T> { W(-self.0) } }
+impl<T: std::iter::Sum> std::iter::Sum for W<T> { fn sum<I: Iterator<Item = W<T>>>(it: I) -> W<T> { W(it.map(|w| w.0).sum()) } }
+impl<T: std::iter::Product> std::iter::Product for W<T> { fn product<I: Iterator<Item = W<T>>>(it: I) -> W<T> { W(it.map(|w| w.0).product()) } }
+
 pub fn show<T: std::fmt::Debug>(v: &T) -> String { format!("{:?}", v) }
 /// rendering of the result of a derived binary operator on an enum: kind of error + both messages
 pub fn d_bin<T: std::fmt::Debug>(r: Result<T, derive_more::BinaryError>) -> String {
@@ -194,6 +222,12 @@ pub struct Shape {
     pub param: [bool; 4],
     /// 0 none, 1 inline `: Clone` bound on the first parameter, 2 where-clause on the last parameter
     pub bound_style: u8,
+    /// a slot declared as a type parameter is used as `W<T<slot>>` (the parameter sits inside the field type)
+    pub wrapped: [bool; 4],
+    /// an (unused) const parameter `const CN: usize`: `Some(true)` declared first, `Some(false)` last
+    pub cn: Option<bool>,
+    /// raw-identifier variant names
+    pub raw_variants: bool,
 }
 
 impl Shape {
@@ -207,10 +241,35 @@ impl Shape {
         self.used_slots().into_iter().filter(|s| self.param[*s]).collect()
     }
     fn ty(&self, slot: usize) -> String {
-        if self.param[slot] {
+        if self.param[slot] && self.wrapped[slot] {
+            format!("W<T{slot}>")
+        } else if self.param[slot] {
             format!("T{slot}")
         } else {
             format!("F{slot}")
+        }
+    }
+    /// value of a field of `slot` holding the term expression `term`
+    fn val(&self, slot: usize, term: &str) -> String {
+        if self.param[slot] && self.wrapped[slot] {
+            format!("W(F{slot}({term}))")
+        } else {
+            format!("F{slot}({term})")
+        }
+    }
+    /// path from a field to its term (`.0` for `F`, `.0.0` for `W<F>`)
+    fn term_path(&self, slot: usize) -> &'static str {
+        if self.param[slot] && self.wrapped[slot] {
+            ".0.0"
+        } else {
+            ".0"
+        }
+    }
+    fn vname(&self, v: &Var) -> String {
+        if self.raw_variants {
+            format!("r#{}", v.name)
+        } else {
+            v.name.to_string()
         }
     }
     fn tname(&self) -> &'static str {
@@ -222,10 +281,13 @@ impl Shape {
     }
     fn generics_decl(&self) -> (String, String) {
         let ps = self.params();
-        if ps.is_empty() {
+        if ps.is_empty() && self.cn.is_none() {
             return (String::new(), String::new());
         }
         let mut parts = vec![];
+        if self.cn == Some(true) {
+            parts.push("const CN: usize".to_string());
+        }
         for (k, s) in ps.iter().enumerate() {
             if k == 0 && self.bound_style == 1 {
                 parts.push(format!("T{s}: Clone"));
@@ -233,16 +295,25 @@ impl Shape {
                 parts.push(format!("T{s}"));
             }
         }
-        let wh = if self.bound_style == 2 { format!(" where T{}: Clone", ps[ps.len() - 1]) } else { String::new() };
+        if self.cn == Some(false) {
+            parts.push("const CN: usize".to_string());
+        }
+        let wh = if self.bound_style == 2 && !ps.is_empty() { format!(" where T{}: Clone", ps[ps.len() - 1]) } else { String::new() };
         (format!("<{}>", parts.join(", ")), wh)
     }
     /// the instantiated type
     fn inst(&self) -> String {
         let ps = self.params();
-        if ps.is_empty() {
+        let mut args: Vec<String> = ps.iter().map(|s| format!("F{s}")).collect();
+        match self.cn {
+            Some(true) => args.insert(0, "3".to_string()),
+            Some(false) => args.push("3".to_string()),
+            None => {}
+        }
+        if args.is_empty() {
             self.tname().to_string()
         } else {
-            format!("{}<{}>", self.tname(), ps.iter().map(|s| format!("F{s}")).collect::<Vec<_>>().join(", "))
+            format!("{}<{}>", self.tname(), args.join(", "))
         }
     }
     fn decl_fields(&self, v: &Var) -> String {
@@ -259,7 +330,7 @@ impl Shape {
     fn typedef(&self, dm: &str) -> String {
         let (g, wh) = self.generics_decl();
         if self.is_enum {
-            let vs: Vec<String> = self.vars.iter().map(|v| format!("    {}{},", v.name, self.decl_fields(v))).collect();
+            let vs: Vec<String> = self.vars.iter().map(|v| format!("    {}{},", self.vname(v), self.decl_fields(v))).collect();
             format!("#[derive(Clone, Debug)]\n{dm}pub enum E{g}{wh} {{\n{}\n}}\npub type Ty = {};\n", vs.join("\n"), self.inst())
         } else {
             let v = &self.vars[0];
@@ -272,7 +343,7 @@ impl Shape {
     }
     fn path(&self, v: &Var) -> String {
         if self.is_enum {
-            format!("E::{}", v.name)
+            format!("E::{}", self.vname(v))
         } else {
             "S".to_string()
         }
@@ -282,10 +353,10 @@ impl Shape {
         let p = self.path(v);
         match v.kind {
             VK::Unit => p,
-            VK::Tuple => format!("{p}({})", v.fields.iter().enumerate().map(|(i, f)| format!("F{}({})", f.slot, term(i))).collect::<Vec<_>>().join(", ")),
+            VK::Tuple => format!("{p}({})", v.fields.iter().enumerate().map(|(i, f)| self.val(f.slot, &term(i))).collect::<Vec<_>>().join(", ")),
             VK::Named => format!(
                 "{p} {{ {} }}",
-                v.fields.iter().enumerate().map(|(i, f)| format!("{}: F{}({})", f.name.as_ref().unwrap(), f.slot, term(i))).collect::<Vec<_>>().join(", ")
+                v.fields.iter().enumerate().map(|(i, f)| format!("{}: {}", f.name.as_ref().unwrap(), self.val(f.slot, &term(i)))).collect::<Vec<_>>().join(", ")
             ),
         }
     }
@@ -325,7 +396,7 @@ fn gen_fields(d: &mut Dice, kind: VK, slot_mode: usize, pool: &[&str; 4], raw: b
                 1 => 0,
                 _ => d.pick(4),
             };
-            let name = if kind == VK::Named { Some(if raw && i == 0 { "r#fn".to_string() } else { pool[i].to_string() }) } else { None };
+            let name = if kind == VK::Named { Some(if raw { ["r#fn", "r#type", "r#in", "r#match"][i].to_string() } else { pool[i].to_string() }) } else { None };
             Fld { name, slot }
         })
         .collect()
@@ -363,7 +434,15 @@ fn gen_shape(d: &mut Dice, is_enum: bool) -> Shape {
         }
     }
     let bound_style = d.weighted(&[6, 2, 2]) as u8;
-    Shape { is_enum, vars, param, bound_style }
+    let mut wrapped = [false; 4];
+    if d.chance(25) {
+        for w in wrapped.iter_mut() {
+            *w = d.chance(60);
+        }
+    }
+    let cn = if d.chance(12) { Some(d.chance(50)) } else { None };
+    let raw_variants = is_enum && d.chance(8);
+    Shape { is_enum, vars, param, bound_style, wrapped, cn, raw_variants }
 }
 
 // ------------------------------------------------------------------------------------------------
@@ -399,7 +478,11 @@ pub struct Plan {
 }
 
 struct Rendered {
-    dm: String,
+    /// derive paths and helper attributes
+    derives: Vec<String>,
+    attrs: String,
+    /// operator traits the case implements for the type (derived or hand-written companion)
+    impls: Vec<String>,
     extra_items: String,
     run: String,
     /// value constructions (for the derive-less control)
@@ -408,6 +491,10 @@ struct Rendered {
 }
 
 fn render_plan(p: &Plan) -> GenCase {
+    finish(p, render_parts(p), None)
+}
+
+fn render_parts(p: &Plan) -> Rendered {
     let opd = &OPS[p.op];
     let sh = &p.shape;
     let name = opd.name;
@@ -582,26 +669,30 @@ fn render_plan(p: &Plan) -> GenCase {
                     let nm = if p.companion == 1 { comp_method.to_string() } else { format!("c{comp_method}") };
                     // hand-written companion on the instantiated type
                     let acc = |side: &str, k: usize, f: &Fld| match &f.name {
-                        Some(n) => format!("{side}.{n}.0"),
-                        None => format!("{side}.{k}.0"),
+                        Some(n) => format!("{side}.{n}{}", sh.term_path(f.slot)),
+                        None => format!("{side}.{k}{}", sh.term_path(f.slot)),
                     };
+                    let wrapv = |f: &Fld, t: String| sh.val(f.slot, &t);
                     let body = match v.kind {
                         VK::Tuple => format!(
                             "S({})",
-                            v.fields.iter().enumerate().map(|(k, f)| format!("F{}(op(\"{nm}\", {}, {}))", f.slot, acc("self", k, f), acc("rhs", k, f))).collect::<Vec<_>>().join(", ")
+                            v.fields.iter().enumerate().map(|(k, f)| wrapv(f, format!("op(\"{nm}\", {}, {})", acc("self", k, f), acc("rhs", k, f)))).collect::<Vec<_>>().join(", ")
                         ),
                         _ => format!(
                             "S {{ {} }}",
                             v.fields
                                 .iter()
                                 .enumerate()
-                                .map(|(k, f)| format!("{}: F{}(op(\"{nm}\", {}, {}))", f.name.as_ref().unwrap(), f.slot, acc("self", k, f), acc("rhs", k, f)))
+                                .map(|(k, f)| format!("{}: {}", f.name.as_ref().unwrap(), wrapv(f, format!("op(\"{nm}\", {}, {})", acc("self", k, f), acc("rhs", k, f)))))
                                 .collect::<Vec<_>>()
                                 .join(", ")
                         ),
                     };
+                    // without type parameters the derived impl has no `S<..>: Add/Mul` where-clause to rely on: it needs
+                    // the companion for every value of the const parameter
+                    let (ig, ty) = if sh.params().is_empty() && sh.cn.is_some() { ("<const CN: usize>", "S<CN>") } else { ("", "Ty") };
                     extra_items.push_str(&format!(
-                        "impl std::ops::{comp_trait} for Ty {{\n    type Output = Ty;\n    fn {comp_method}(self, rhs: Ty) -> Ty {{ {body} }}\n}}\n"
+                        "impl{ig} std::ops::{comp_trait} for {ty} {{\n    type Output = {ty};\n    fn {comp_method}(self, rhs: {ty}) -> {ty} {{ {body} }}\n}}\n"
                     ));
                     nm
                 }
@@ -634,19 +725,41 @@ fn render_plan(p: &Plan) -> GenCase {
         }
     }
 
-    let dm = if p.derive_style == 0 {
-        format!("{}{attrs}", derives.iter().map(|x| format!("#[derive({x})]\n")).collect::<String>())
-    } else {
-        format!("#[derive({})]\n{attrs}", derives.join(", "))
-    };
-    let r = Rendered { dm, extra_items, run, values, labels };
-    finish(p, r)
+    let mut impls: Vec<String> = derives.iter().map(|x| x.trim_start_matches("derive_more::").to_string()).collect();
+    if opd.fam == Fam::SumLike && p.companion != 0 {
+        impls.push(if opd.derive == "Sum" { "Add".into() } else { "Mul".into() });
+    }
+    Rendered { derives, attrs, impls, extra_items, run, values, labels }
 }
 
-fn finish(p: &Plan, r: Rendered) -> GenCase {
+/// `second`: a further operator derive on the same type (its own helper attributes, its own checks)
+fn finish(p: &Plan, mut r: Rendered, second: Option<(&Plan, Rendered)>) -> GenCase {
     let opd = &OPS[p.op];
     let sh = &p.shape;
-    let body = format!("{}{}pub fn run(o: &mut Out) {{\n{}}}", sh.typedef(&r.dm), r.extra_items, r.run);
+    let mut forward_enum2 = false;
+    if let Some((p2, r2)) = second {
+        let o2 = &OPS[p2.op];
+        r.derives.extend(r2.derives);
+        if !r.attrs.is_empty() && !r2.attrs.is_empty() {
+            r.labels.push("multi_helper_attributes".into());
+        }
+        r.attrs.push_str(&r2.attrs);
+        r.extra_items.push_str(&r2.extra_items);
+        r.run = format!("    {{\n{}    }}\n    {{\n{}    }}\n", r.run, r2.run);
+        r.values.extend(r2.values);
+        r.labels.push("multi_operator_derives".into());
+        r.labels.push(format!("second_family={:?}", o2.fam));
+        if (p.mode == Mode::Forward) != (p2.mode == Mode::Forward) && matches!(opd.fam, Fam::MulLike | Fam::MulAssignLike) && matches!(o2.fam, Fam::MulLike | Fam::MulAssignLike) {
+            r.labels.push("multi_forward_and_scalar".into());
+        }
+        forward_enum2 = sh.is_enum && p2.mode == Mode::Forward;
+    }
+    let dm = if p.derive_style == 0 {
+        format!("{}{}", r.derives.iter().map(|x| format!("#[derive({x})]\n")).collect::<String>(), r.attrs)
+    } else {
+        format!("#[derive({})]\n{}", r.derives.join(", "), r.attrs)
+    };
+    let body = format!("{}{}pub fn run(o: &mut Out) {{\n{}}}", sh.typedef(&dm), r.extra_items, r.run);
     let ctl_vals: String = {
         let mut seen = std::collections::BTreeSet::new();
         r.values.iter().filter(|v| seen.insert((*v).clone())).map(|v| format!("    let _v: Ty = {v};\n")).collect()
@@ -693,7 +806,16 @@ fn finish(p: &Plan, r: Rendered) -> GenCase {
         Mode::Scalar => labels.push("scalar".into()),
         Mode::Plain => {}
     }
-    let forward_enum = sh.is_enum && p.mode == Mode::Forward;
+    let forward_enum = (sh.is_enum && p.mode == Mode::Forward) || forward_enum2;
+    if sh.used_slots().iter().any(|s| sh.param[*s] && sh.wrapped[*s]) {
+        labels.push("param_inside_field_type".into());
+    }
+    if sh.cn.is_some() {
+        labels.push("const_param".into());
+    }
+    if sh.raw_variants {
+        labels.push("raw_variant_names".into());
+    }
     if forward_enum {
         labels.push("mul_forward_enum".into());
     }
@@ -762,7 +884,51 @@ fn build(d: &mut Dice) -> GenCase {
     let companion = d.weighted(&[4, 3, 3]) as u8;
     let derive_style = d.pick(2) as u8;
     let cross = matches!(opd.fam, Fam::AddAssignLike | Fam::MulAssignLike) && d.chance(50);
-    render_plan(&Plan { op, mode, shape, scalar, noncopy, sum_len, companion, derive_style, cross })
+    let p = Plan { op, mode, shape, scalar, noncopy, sum_len, companion, derive_style, cross };
+    if !d.chance(15) {
+        return render_plan(&p);
+    }
+    // a second operator derive on the same type (another trait, its own helper attribute and checks)
+    let r1 = render_parts(&p);
+    let mut second = None;
+    for _ in 0..4 {
+        let op2 = d.pick(24);
+        let o2 = &OPS[op2];
+        let mode2 = match o2.fam {
+            Fam::AddLike | Fam::NotLike => Mode::Plain,
+            Fam::AddAssignLike | Fam::SumLike if !p.shape.is_enum => Mode::Plain,
+            Fam::MulLike if p.shape.is_enum => Mode::Forward,
+            Fam::MulLike | Fam::MulAssignLike if !p.shape.is_enum => {
+                if d.chance(40) {
+                    Mode::Forward
+                } else {
+                    Mode::Scalar
+                }
+            }
+            _ => continue,
+        };
+        let p2 = Plan {
+            op: op2,
+            mode: mode2,
+            shape: p.shape.clone(),
+            scalar: 1 + d.pick(9) as u8,
+            noncopy: false,
+            sum_len: 1 + d.pick(2),
+            companion: d.weighted(&[4, 3, 3]) as u8,
+            derive_style: p.derive_style,
+            cross: false,
+        };
+        let r2 = render_parts(&p2);
+        if r2.impls.iter().any(|t| r1.impls.contains(t)) {
+            continue;
+        }
+        second = Some((p2, r2));
+        break;
+    }
+    match second {
+        Some((p2, r2)) => finish(&p, r1, Some((&p2, r2))),
+        None => finish(&p, r1, None),
+    }
 }
 
 fn fld(name: Option<&str>, slot: usize) -> Fld {
@@ -773,15 +939,18 @@ fn fld(name: Option<&str>, slot: usize) -> Fld {
 /// struct, and — where enums are supported — a concrete enum with two unit variants and a generic enum
 /// without unit variants.
 fn fixed() -> Vec<GenCase> {
-    let tuple2 = Shape { is_enum: false, vars: vec![Var { name: "S", kind: VK::Tuple, fields: vec![fld(None, 0), fld(None, 1)] }], param: [false; 4], bound_style: 0 };
-    let tuple2_same = Shape { is_enum: false, vars: vec![Var { name: "S", kind: VK::Tuple, fields: vec![fld(None, 0), fld(None, 0)] }], param: [false; 4], bound_style: 0 };
+    let tuple2 = Shape { is_enum: false, vars: vec![Var { name: "S", kind: VK::Tuple, fields: vec![fld(None, 0), fld(None, 1)] }], param: [false; 4], bound_style: 0, wrapped: [false; 4], cn: None, raw_variants: false };
+    let tuple2_same = Shape { is_enum: false, vars: vec![Var { name: "S", kind: VK::Tuple, fields: vec![fld(None, 0), fld(None, 0)] }], param: [false; 4], bound_style: 0, wrapped: [false; 4], cn: None, raw_variants: false };
     let named3g = Shape {
         is_enum: false,
         vars: vec![Var { name: "S", kind: VK::Named, fields: vec![fld(Some("a"), 0), fld(Some("b"), 1), fld(Some("c"), 0)] }],
         param: [true; 4],
         bound_style: 1,
+        wrapped: [false; 4],
+        cn: None,
+        raw_variants: false,
     };
-    let single = Shape { is_enum: false, vars: vec![Var { name: "S", kind: VK::Tuple, fields: vec![fld(None, 0)] }], param: [false; 4], bound_style: 0 };
+    let single = Shape { is_enum: false, vars: vec![Var { name: "S", kind: VK::Tuple, fields: vec![fld(None, 0)] }], param: [false; 4], bound_style: 0, wrapped: [false; 4], cn: None, raw_variants: false };
     let enum_units = Shape {
         is_enum: true,
         vars: vec![
@@ -792,6 +961,9 @@ fn fixed() -> Vec<GenCase> {
         ],
         param: [false; 4],
         bound_style: 0,
+        wrapped: [false; 4],
+        cn: None,
+        raw_variants: false,
     };
     let enum_generic = Shape {
         is_enum: true,
@@ -802,8 +974,11 @@ fn fixed() -> Vec<GenCase> {
         ],
         param: [true; 4],
         bound_style: 0,
+        wrapped: [false; 4],
+        cn: None,
+        raw_variants: false,
     };
-    let enum_single = Shape { is_enum: true, vars: vec![Var { name: "A", kind: VK::Tuple, fields: vec![fld(None, 0), fld(None, 1)] }], param: [false; 4], bound_style: 0 };
+    let enum_single = Shape { is_enum: true, vars: vec![Var { name: "A", kind: VK::Tuple, fields: vec![fld(None, 0), fld(None, 1)] }], param: [false; 4], bound_style: 0, wrapped: [false; 4], cn: None, raw_variants: false };
     let mut out = vec![];
     let plan = |op: usize, mode: Mode, shape: &Shape, noncopy: bool, companion: u8| Plan { op, mode, shape: shape.clone(), scalar: 7, noncopy, sum_len: 2, companion, derive_style: 0, cross: false };
     let crossed = |mut p: Plan| {
@@ -898,6 +1073,11 @@ pub fn prop() -> DiceProp {
             ("negative_unsupported_enum", 0.02),
             ("companion=manual_own_name", 0.01),
             ("assign_vs_derived_op", 0.08),
+            ("multi_operator_derives", 0.08),
+            ("multi_forward_and_scalar", 0.004),
+            ("param_inside_field_type", 0.04),
+            ("const_param", 0.06),
+            ("raw_variant_names", 0.008),
         ]
         .iter()
         .map(|(l, f)| (l.to_string(), *f)),
@@ -914,7 +1094,7 @@ pub fn prop() -> DiceProp {
         build,
         fixed,
         classify,
-        rule: "one of the 24 operator derives on a tuple/named struct (1..4 fields) or an enum (1..4 tuple/named/unit variants, Add-like, Not-like and `forward` Mul-like only), concrete, generic or mixed field types, with/without `forward`; fields are free-term-algebra types, leaves tagged by side and field index; oracle: the result's Debug rendering equals that of the expected value built by hand from term constructors (field i = op(L i, R i) / op(L i, K) / un(L i); a op= b leaves a = that value; sum/product = left fold from the field-wise Zero/One with the type's Add/Mul; enums: every ordered pair of variants, Ok inside a variant, BinaryError::Mismatch / BinaryError::Unit / UnitError with the documented messages otherwise); unsupported enum forms must be rejected; non-trivial = struct with >= 2 fields or enum with >= 2 variants; distinct by program text".into(),
+        rule: "one of the 24 operator derives on a tuple/named struct (1..4 fields) or an enum (1..4 tuple/named/unit variants, Add-like, Not-like and `forward` Mul-like only), concrete, generic or mixed field types (a type parameter also inside the field type: `W<T>`), optionally an unused const parameter, raw-identifier variant and field names, with/without `forward`; optionally a second operator derive (another trait, own helper attribute, own checks) on the same type; fields are free-term-algebra types, leaves tagged by side and field index; oracle: the result's Debug rendering equals that of the expected value built by hand from term constructors (field i = op(L i, R i) / op(L i, K) / un(L i); a op= b leaves a = that value; sum/product = left fold from the field-wise Zero/One with the type's Add/Mul; enums: every ordered pair of variants, Ok inside a variant, BinaryError::Mismatch / BinaryError::Unit / UnitError with the documented messages otherwise); unsupported enum forms must be rejected; non-trivial = struct with >= 2 fields or enum with >= 2 variants; distinct by program text".into(),
         assumptions: vec![
             "std #[derive(Debug)] renders the case types faithfully (structural equality is decided on the Debug rendering)".into(),
             "for pairs of different variants where one or both are unit variants the listing in add.md (`_ => Mismatch`) decides: mismatch error".into(),
@@ -924,8 +1104,45 @@ pub fn prop() -> DiceProp {
     }
 }
 
+/// The enum forms that must be rejected are additionally expanded in-process: the rejection has to come from the
+/// derive itself (a diagnostic, or its explicit "only structs" panic), not from an accident of the generated program.
+fn confirm_negatives_inproc(p: &DiceProp, ctx: &super::core::Ctx, rep: &mut super::core::Report) {
+    use proptest::strategy::ValueTree;
+    let strat = ProgProp::strategy(p, ctx);
+    let (n, _) = ProgProp::budget(p, ctx.tier);
+    let mut runner = ctx.runner(0);
+    let mut cases: Vec<GenCase> = (p.fixed)();
+    cases.extend(super::core::draw(&mut runner, &strat, n).into_iter().map(|t| t.current()));
+    let mut seen = std::collections::HashSet::new();
+    let mut confirmed = 0u64;
+    for c in cases {
+        if c.expect_compile || c.meta["negative"] != true || !seen.insert(c.body.clone()) {
+            continue;
+        }
+        let Some(derive) = c.meta["derive"].as_str().and_then(super::dm::Derive::by_name) else { continue };
+        // the item alone (the `pub type Ty = ..;` line is not part of the derive input)
+        let item: String = c.body.lines().filter(|l| !l.starts_with("pub type Ty")).collect::<Vec<_>>().join("\n");
+        match super::dm::expand_src(derive, &item) {
+            Ok(super::dm::Outcome::Err(_)) => confirmed += 1,
+            Ok(super::dm::Outcome::Panic(pi)) if super::dm::is_deliberate(&pi) => confirmed += 1,
+            Ok(o) => rep.violations.push(super::core::Violation {
+                sig: None,
+                summary: format!("derive({}) on an enum, which its documentation excludes, is not rejected by the derive itself ({})", derive.name(), o.kind()),
+                case: json!({"inproc_item": item}),
+                expected: "a diagnostic from the derive".into(),
+                observed: o.kind().into(),
+            }),
+            Err(e) => rep.infra_errors.push(format!("negative item does not parse: {e}: {item}")),
+        }
+    }
+    rep.evidence.add("negatives_confirmed_inproc", confirmed);
+}
+
 pub fn run(ctx: &super::core::Ctx) -> super::core::Report {
-    super::progprop::run(&prop(), ctx)
+    let p = prop();
+    let mut rep = super::progprop::run(&p, ctx);
+    confirm_negatives_inproc(&p, ctx, &mut rep);
+    rep
 }
 
 pub fn replay(ctx: &super::core::Ctx, case: &serde_json::Value) -> super::core::Report {
